@@ -174,7 +174,7 @@ theorem mem_foldl_erase (l m : List Bytes) (b : Bytes) (h : b ∈ l.foldl (fun a
 
 theorem connectionLost_conn' {s : State} {c : Nat} {x : Conn} (hx : s.conn c = some x) :
     ∃ l, (∀ ch ∈ l, ch ∈ x.active) ∧
-      ((connectionLost s c).conn c = some { x with active := l, registered := false } ∨
+      ((connectionLost s c).conn c = some { x with active := l, registered := false, lostAs := some x.ak } ∨
          ((connectionLost s c).conn c = some x ∧ x.registered = false)) := by
   by_cases hr : x.registered = true
   · refine ⟨x.active.foldl (fun a ch => a.erase ch) x.active, fun ch h => mem_foldl_erase _ _ _ h, Or.inl ?_⟩
